@@ -142,7 +142,7 @@ type c46AM struct {
 	pending  []*c46Req // requests in flight, arrival order
 	// accounting for the current loop (only compared with the metrics while gens == 1)
 	okN, failN, lostN int
-	maxReceived       int // highest alert number received so far
+	maxReceived       int  // highest alert number received so far
 	maxReceivedDrain  bool // ... and whether it arrived in a request issued by stop()'s drain
 	maxReceivedGen    int  // ... and the send loop generation that issued that request
 	received          []int
